@@ -161,6 +161,15 @@ def run(ck):
                  pat={'inp': ''.join('m' if v is None else 'p' for v in vals)}, meta={'class': 'profile-with-gap'},
                  label=f'pressure_increasing_test({list(vals)})')
         check_case(ck, c, None)
+    # integer-typed pressure arrays (counts of decibars, as they come out of many files), up- and downcasts
+    for vals in ((1, 2, 3), (3, 2, 1), (40, 30, 20, 10), (1, 1), (2, 1), (5,), (1, 3, 2)):
+        cells = [El(X.num(v), False) for v in vals]
+        c = Case('pressure_increasing_test', [Vec.fresh(cells, kind='nd', dtype='i8', owner='inp')], {}, n=len(vals), pat={'inp': 'p' * len(vals)},
+                 meta={'class': 'integer-profile'}, label=f'pressure_increasing_test(int64 array {list(vals)})')
+        check_case(ck, c, None)
+        c = Case('pressure_increasing_test', [list(vals)], {}, n=len(vals), pat={'inp': 'p' * len(vals)},
+                 meta={'class': 'integer-profile'}, label=f'pressure_increasing_test(list of ints {list(vals)})')
+        check_case(ck, c, None)
     # the families whose tables start at one length only: the empty, one- and two-point series
     short_pats = ('', 'p', 'm', 'pp', 'pm', 'mp')
     for pat in short_pats:
